@@ -1,6 +1,7 @@
 package rules
 
 import (
+	"fmt"
 	"go/token"
 	"go/types"
 	"sort"
@@ -16,7 +17,7 @@ import (
 func init() {
 	pk := []string{"./pkg/local_object_storage/metabase", "./pkg/core/object"}
 	register(&Check{ID: "C01", Level: "other", Pkgs: pk, Run: runC01})
-	register(&Check{ID: "C06", Level: "other", Pkgs: pk, Run: runC06})
+	register(&Check{ID: "C06", Level: "other", Pkgs: append([]string{"./pkg/local_object_storage/engine"}, pk...), Run: runC06})
 }
 
 const mbDB = "(*pkg/local_object_storage/metabase.DB)."
@@ -131,7 +132,7 @@ func statusSwitchMapping(p *core.Prog, h *core.RuleH, fn *ssa.Function) {
 }
 
 func runC01(p *core.Prog, r *core.Report) {
-	r.Explain = "Decides that every metabase view consults the shared status machinery before it yields an object, on all CFG paths: exists, get (unless its caller asked to skip the status, callers tabled), filtered and unfiltered search, listing, expired iteration, EC part resolution and IsLocked pass containerMarkedGC==false and the object-status test with the 'available' outcome; the search handler records an object only after the additional (status) checker accepted it; the three removed states map to the same error classes in every view; the two expiry predicates are strict and oriented the same way; the nested status takes the worse of own and parent status; inGarbage reports tombstoned/GC-marked only on the matching lookups. Every function opening a read transaction is classified (a new view fails the check until classified). Not covered: that the status function implements the reference rules on every history (parent inheritance across collisions, interplay of marks) — that is behavioural."
+	r.Explain = "Decides that every metabase view consults the shared status machinery before it yields an object, on all CFG paths: exists, get (unless its caller asked to skip the status, callers tabled), filtered and unfiltered search, listing, expired iteration, EC part resolution and IsLocked pass containerMarkedGC==false and the object-status test with the 'available' outcome; the search handler records an object only after the additional (status) checker accepted it; the three removed states map to the same error classes in every view; the two expiry predicates are strict and oriented the same way; the nested status takes the worse of own and parent status; inGarbage reports tombstoned/GC-marked only on the matching lookups. Every function opening a read transaction is classified (a new view fails the check until classified). (R6) A removal mark is never weakened: a garbage key is written with a possibly non-empty value (the redundant-copy mark, which reads as 'available') only on paths where the key was looked up and found absent; an existing key is only overwritten with the empty, full mark. Not covered: that the status function implements the reference rules on every history (parent inheritance across collisions, interplay of marks) — that is behavioural."
 	// ---------------- R0 classification of read transactions
 	r0 := r.Rule("C01.R0", "every metabase function that opens a bbolt read transaction is classified as an object view (ruled below) or as not yielding objects by status (with reason)", 15)
 	views := map[string]string{
@@ -441,7 +442,62 @@ func runC01(p *core.Prog, r *core.Report) {
 	r5 := r.Rule("C01.R5", "the lock override looks at every lock: the lookup ends only at a LIVE lock of the object (an expired lock does not end the search) and a removed lock does not count", 4)
 	tLock, _ := p.ConstInt("github.com/nspcc-dev/neofs-sdk-go/object.TypeLock")
 	lockLookupRule(p, r, r5, tLock, stAvail)
+	// ---------------- R6 a removal mark is never weakened
+	r6 := r.Rule("C01.R6", "a garbage key is written with a non-empty (redundant-copy) value only where the key was looked up and found absent; an existing mark is only ever overwritten with the empty (full) mark", 3)
+	garbageMarkNotWeakened(p, r, r6)
 	r.Analysed["views_classified"] = len(views)
+}
+
+// garbageMarkNotWeakened: the value of a garbage key decides availability (empty = removed, redundant mark = still
+// available), so overwriting an existing key with a non-empty value makes a removed object reappear.
+func garbageMarkNotWeakened(p *core.Prog, r *core.Report, h *core.RuleH) {
+	isGarbageKey := func(mr *core.MemReach, v ssa.Value) bool {
+		c, ok := mr.Canon(v).(*ssa.Call)
+		return ok && core.CalleeName(c) == mb+"mkGarbageKey"
+	}
+	n := 0
+	for _, fn := range p.FuncsIn("pkg/local_object_storage/metabase") {
+		mr := core.NewMemReach(fn)
+		var sites []ssa.CallInstruction
+		for _, s := range core.CallSites([]*ssa.Function{fn}, func(s core.Site) bool { return s.Name == "(*github.com/nspcc-dev/bbolt.Bucket).Put" }) {
+			if a := s.Call.Common().Args; len(a) == 3 && isGarbageKey(mr, a[1]) {
+				sites = append(sites, s.Call)
+			}
+		}
+		if len(sites) == 0 {
+			continue
+		}
+		absent := core.Guard{Name: "key-looked-up-and-absent", Comps: []core.Comp{{Result: -1, Kind: core.IsFalse}}, Match: func(s core.Site) bool {
+			if s.Name != "bytes.Equal" {
+				return false
+			}
+			a := s.Call.Common().Args
+			fromSeek := func(k, key ssa.Value) bool {
+				ex, ok := k.(*ssa.Extract)
+				if !ok || ex.Index != 0 {
+					return false
+				}
+				sc, ok := ex.Tuple.(*ssa.Call)
+				return ok && core.CalleeName(sc) == "(*github.com/nspcc-dev/bbolt.Cursor).Seek" && mr.Canon(sc.Call.Args[1]) == mr.Canon(key)
+			}
+			return isGarbageKey(mr, a[1]) && fromSeek(a[0], a[1]) || isGarbageKey(mr, a[0]) && fromSeek(a[1], a[0])
+		}}
+		gf := core.Flow(fn, []core.Guard{absent})
+		for _, c := range sites {
+			n++
+			val := c.Common().Args[2]
+			id := core.FuncName(fn) + "#Put(garbage key)"
+			if k, isC := val.(*ssa.Const); isC && k.IsNil() {
+				h.OKTrivial(id+"[full mark]", p.InstrPos(c), "writes the empty value: the full removal mark")
+				continue
+			}
+			f := gf.At(c)
+			h.Check(gf.Passed(f, 0), id+"!key-absent", p.InstrPos(c), "a possibly non-empty mark is written only where the key was found absent", "a garbage key that may already exist is overwritten with a value that can be the redundant-copy mark: an object that was already removed (full mark) becomes available again")
+		}
+	}
+	if n == 0 {
+		r.Fatalf("%s: no write of a garbage key found in the metabase", h.ID())
+	}
 }
 
 func constTrue(c *ssa.Const) bool {
@@ -479,7 +535,7 @@ func runListingRule(p *core.Prog, r *core.Report, h *core.RuleH) {
 }
 
 func runC06(p *core.Prog, r *core.Report) {
-	r.Explain = "Decides only the status clause and the structural half of 'exactly once': (R1) the listing loop appends an address only after containerMarkedGC==false and inGarbage(that id)==statusAvailable; (R2) nothing else in the metabase builds listing results (all appends to []AddressWithAttributes are in selectNFromBucket's loop); (R3) the cursor is advanced to every visited object before any skip (so a skipped object is not revisited), the next page starts strictly after the cursor object (the equal key is stepped over), and the per-container reset of the object cursor happens only when the container changes. Not covered: exactly-once across pages and shards as a property of key order (cursor arithmetic over key values), which is behavioural."
+	r.Explain = "Decides only the status clause and the structural half of 'exactly once': (R1) the listing loop appends an address only after containerMarkedGC==false and inGarbage(that id)==statusAvailable; (R2) nothing else in the metabase builds listing results (all appends to []AddressWithAttributes are in selectNFromBucket's loop); (R3) the cursor is advanced to every visited object before any skip (so a skipped object is not revisited), the next page starts strictly after the cursor object (the equal key is stepped over), and the per-container reset of the object cursor happens only when the container changes. (R4) the engine asks every shard from the same cursor position and merges every non-empty page (the only ways around the merge are a failed shard and an empty page). Not covered: exactly-once across pages and shards as a property of key order (cursor arithmetic over key values), which is behavioural."
 	r1 := r.Rule("C06.R1", "listing appends only objects of live containers that are not marked for removal", 2)
 	runListingRule(p, r, r1)
 	r2 := r.Rule("C06.R2", "listing results are built only in selectNFromBucket", 1)
@@ -548,6 +604,87 @@ func runC06(p *core.Prog, r *core.Report) {
 			fa, ok := st.Addr.(*ssa.FieldAddr)
 			return "reset-object-cursor", ok && core.FieldAddrName(fa) == "("+mb+"Cursor).lastObjectID"
 		}})
+	}
+	// ---------------- R4 the engine merges every shard's page
+	r4 := r.Rule("C06.R4", "StorageEngine.ListWithCursor merges every non-empty shard page: from the shard's listing call to the next shard the only ways around the merge are 'the shard failed' and 'its page is empty'; every shard gets the same start cursor", 2)
+	if el := p.Func("(*pkg/local_object_storage/engine.StorageEngine).ListWithCursor"); el == nil {
+		r.Fatalf("C06.R4: engine ListWithCursor not found")
+	} else {
+		name := core.FuncName(el)
+		lists := core.CallSites([]*ssa.Function{el}, func(s core.Site) bool { return strings.HasSuffix(s.Name, "shard.Shard).ListWithCursor") })
+		merges := core.CallSites([]*ssa.Function{el}, func(s core.Site) bool { return s.Name == "pkg/local_object_storage/engine.mergeListResults" })
+		if len(lists) != 1 || len(merges) != 1 {
+			r4.Bad(name+"#merge", p.Pos(el.Pos()), fmt.Sprintf("expected one shard listing call and one merge, found %d and %d", len(lists), len(merges)))
+		} else {
+			lb, mblk := lists[0].Call.Block(), merges[0].Call.Block()
+			var hdr *ssa.BasicBlock
+			for _, hb := range el.Blocks {
+				if hb.Dominates(lb) && hb != lb && reaches(lb, hb) && (hdr == nil || hdr.Dominates(hb)) {
+					for _, pr := range hb.Preds {
+						if hb.Dominates(pr) {
+							hdr = hb
+						}
+					}
+				}
+			}
+			// allowed ways around: err != nil (true edge) and len(page) == 0 (true edge), both on the listing call's own results
+			allowed := map[[2]*ssa.BasicBlock]bool{}
+			lv := lists[0].Call.Value()
+			if lv != nil && lv.Referrers() != nil {
+				for _, ref := range *lv.Referrers() {
+					ex, ok := ref.(*ssa.Extract)
+					if !ok || ex.Referrers() == nil {
+						continue
+					}
+					var tests []*ssa.BinOp
+					for _, u := range *ex.Referrers() {
+						switch x := u.(type) {
+						case *ssa.BinOp:
+							if c, isC := x.Y.(*ssa.Const); isC && c.IsNil() && ex.Type().String() == "error" {
+								tests = append(tests, x)
+							}
+						case *ssa.Call:
+							if core.CalleeName(x) == "builtin.len" && ex.Index == 0 && x.Referrers() != nil {
+								for _, lu := range *x.Referrers() {
+									if bo, isB := lu.(*ssa.BinOp); isB {
+										if k, isK := intConstOf(bo.Y); isK && k == 0 {
+											tests = append(tests, bo)
+										}
+									}
+								}
+							}
+						}
+					}
+					for _, bo := range tests {
+						if bo.Referrers() == nil {
+							continue
+						}
+						for _, iu := range *bo.Referrers() {
+							iff, isIf := iu.(*ssa.If)
+							if !isIf {
+								continue
+							}
+							skip := iff.Block().Succs[0] // `!= nil` / `== 0` true edge
+							if bo.Op == token.EQL && ex.Type().String() == "error" || bo.Op == token.NEQ && ex.Type().String() != "error" {
+								skip = iff.Block().Succs[1]
+							}
+							allowed[[2]*ssa.BasicBlock{iff.Block(), skip}] = true
+						}
+					}
+				}
+			}
+			ok := hdr != nil && (lb == mblk || !reachesAvoiding(lb, hdr, map[*ssa.BasicBlock]bool{mblk: true}, allowed))
+			r4.Check(ok, name+"#every-page-merged", p.InstrPos(merges[0].Call), "a shard's page bypasses the merge only when the shard failed or the page is empty", "some path skips the merge of a non-empty shard page: that shard's copies are missing from the holder lists (and an object only it holds from the listing)")
+			// the start cursor is reset from the request's cursor before every shard
+			resets := core.CallSites([]*ssa.Function{el}, func(s core.Site) bool { return strings.HasSuffix(s.Name, "Cursor).Reset") })
+			okReset := false
+			for _, rs := range resets {
+				if hdr != nil && hdr.Dominates(rs.Call.Block()) && rs.Call.Block().Dominates(lb) {
+					okReset = true
+				}
+			}
+			r4.Check(okReset, name+"#same-start-for-every-shard", p.InstrPos(lists[0].Call), "the cursor is reset to the request's position before every shard is asked", "shards are no longer all asked from the request's cursor position")
+		}
 	}
 }
 
